@@ -22,13 +22,11 @@ func init() {
 		Rule: "case = one generated package x segment size 2..12 x one base tier1 request (mode, start, stop, finality point drawn with a bias to segment boundaries and module initial blocks, 1..5 workers, PRNG job completion order) checked by the stream monitor " +
 			"(SessionInit first; every data block in [start,stop); strictly increasing, no duplicate; no gap from the hand-off on and none at all in development mode; below the hand-off only blocks whose reference output is empty may be missing; cursor designates the message's block; final_block_height <= number; nothing after the call returned), " +
 			"then for every k-th delivered final block (k=1 thorough, k=3 quick) a NEW request from that block's cursor with the same stop, once on the same cache and once on an empty cache: it must resolve to block+1 and deliver exactly the non-empty messages that followed in the original stream, under the same stream clauses. " +
+			"live tail (the last cases: quick 6, thorough 300): a production-mode request that runs ~130 blocks + 4 segments beyond the finality point known at its start on a live chain (every block arrives as new and becomes final 1..6 blocks later through a plain irreversible signal; real gRPC tier2): the stream never stalls, all clauses above hold, every store read and every file left behind - those of the live back-filler's background segment jobs included - equal the reference. " +
 			"non-trivial = resumption whose original suffix contains a non-empty payload and crosses or starts below the hand-off; distinct by hash of (package, request, cursor position, cache kind)",
 		Assumptions: []string{"payload expectations come from REF-LINEAR (see C01)", "fork-free chain; only cursors of final blocks are used, as the property states"},
 		Cases: func(tier, mode string) int {
-			if tier == "thorough" {
-				return 2400
-			}
-			return 64
+			return c04BaseCases(tier) + c04LiveCases(tier)
 		},
 		CaseTimeout:   240e9,
 		MinNontrivial: 20,
@@ -36,7 +34,25 @@ func init() {
 	})
 }
 
+func c04BaseCases(tier string) int {
+	if tier == "thorough" {
+		return 2400
+	}
+	return 64
+}
+
+func c04LiveCases(tier string) int {
+	if tier == "thorough" {
+		return 300
+	}
+	return 6
+}
+
 func runC04(c *fw.Case) {
+	if c.Index >= c04BaseCases(c.Tier) {
+		runLiveTail(c, "C04")
+		return
+	}
 	if c.Index%8 == 7 { // compiled packages under wazero: slow jobs, other timing between walker and scheduler
 		runCompiledScenario(c, "C04")
 		return
